@@ -602,6 +602,6 @@ impl Property for C16 {
     }
     fn floors(&self, tier: Tier) -> Vec<(&'static str, u64)> {
         let q = if tier == Tier::Quick { 1 } else { 20 };
-        vec![("nontrivial", 1500 * q), ("run:limited", 1000 * q), ("error:unbalanced", 600 * q), ("error:file-cannot-be-opened", 300 * q), ("print:PrintIr", 200 * q), ("strace-probe", 200 * q), ("stdin-through-a-pipe-in-several-writes", 300 * q), ("code-file-larger-than-64KiB-with-multibyte-comments", 100 * q), ("non-default-configuration", 4000 * q), ("limit-output-reveals-backend-family", 200 * q), ("print-ir-reveals-level", 100 * q)]
+        vec![("nontrivial", 1500 * q), ("run:limited", 1000 * q), ("run:limited-by-a-budget-above-2^32", 200 * q), ("error:unbalanced", 600 * q), ("error:file-cannot-be-opened", 300 * q), ("print:PrintIr", 200 * q), ("strace-probe", 200 * q), ("stdin-through-a-pipe-in-several-writes", 300 * q), ("code-file-larger-than-64KiB-with-multibyte-comments", 100 * q), ("non-default-configuration", 4000 * q), ("limit-output-reveals-backend-family", 200 * q), ("print-ir-reveals-level", 100 * q)]
     }
 }
